@@ -16,7 +16,8 @@ RULE = ("base modules = every balanced module of <=N events of the C02 alphabet 
 
 WS = [" ", "  ", "\t"]
 FILL = WS + ["\n", "\n\n", " # c\n", "#\n", "#[\n", "#[=\n", "#[=x\n", "# #[[[ x\n", "#]]\n", "# set(A 1)\n",
-             "#[[ b ]]", "#[[ #[[[ x ]]", "#[=[ ]] ]=]", "#[==[\nmulti\n]==]", "# café ✓\n"]
+             "#[[ b ]]", "#[[ #[[[ x ]]", "#[=[ ]] ]=]", "#[==[\nmulti\n]==]", "# café ✓\n",
+             "# ${ARGN} ${ARGV} cmake_parse_arguments(P \"\" \"\" \"\" ${ARGN}) :keyword\n", "#[[ ${ARGN} :keyword x: ]]"]
 LIGHT = ["\n", " # c\n", "#[[ b ]]"]
 
 KITCHEN = [
@@ -71,6 +72,18 @@ MULTILINE = [     # a quoted value over several lines, continuation lines indent
     {"k": "set", "doc": 1, "values": ['"line one\n      six more\n   three more\n\ttab"'], "doctext": ["A text block."]},
     {"k": "option", "doc": 1, "help": '"help one\n     five more"', "doctext": ["An option."]},
     {"k": "generic", "doc": 1, "cmd": "message", "args": ["STATUS", '"msg one\n    four more"'], "doctext": ["A command."]},
+    # bracket arguments whose text starts on the line after the opener (CMake drops that first line break)
+    {"k": "set", "doc": 1, "values": ["[[\nCopyright (c) the authors\n  second line\n]]"], "doctext": ["A bracket block."]},
+    {"k": "set", "doc": 1, "values": ["[=[\n\nafter an empty line ]] still\n]=]"], "doctext": ["A level-one bracket block."]},
+    {"k": "option", "doc": 1, "help": "[[\nhelp in brackets\n]]", "doctext": ["An option with bracket help."]},
+]
+
+NOKW = [      # definitions that take no keyword arguments: comment text that mentions ${ARGN} etc. must not add **kwargs
+    {"k": "function", "doc": 1, "params": ["name"]}, {"k": "generic", "doc": 0}, {"k": "close"},
+    {"k": "macro", "doc": 1, "params": ["m"]}, {"k": "generic", "doc": 0}, {"k": "close"},
+    {"k": "cpp_class", "doc": 1}, {"k": "cpp_member", "doc": 1, "types": ["int"], "params": ["a"]}, {"k": "generic", "doc": 0},
+    {"k": "close"}, {"k": "close"},
+    {"k": "ct_add_test", "doc": 1}, {"k": "generic", "doc": 0}, {"k": "close"},
 ]
 
 
@@ -303,6 +316,7 @@ def run(ctx):
     jobs += [(MULTILINE, "full", p, 4, (("cmd_indent", "        "),)) for p in range(4)]
     jobs += [(MULTILINE, "full", p, 4) for p in range(4)]
     jobs += [(ABUT, "full", p, 4) for p in range(4)]
+    jobs += [(NOKW, "full", p, 8) for p in range(8)]
     jobs += [(UNDOC_THEN_DOC, "full", p, 8) for p in range(8)]
     jobs += [([], "full"), ([{"k": "comment", "shape": 0}], "full"), ([{"k": "set", "doc": 0}], "full")]      # modules without any entry
     jobs += [(EMPTYDOCS, "full", p, 8, (), cfg) for p in range(8) for cfg in (None, ALL_OFF, ALL_OFF[:2])]
